@@ -6,7 +6,7 @@ func init() {
 			Bounds: []string{
 				"notation round trip: lists of 0..3 IDs whose fields are arbitrary separator-free texts (token model: every string with the given arity), and 0..3 IDs with arbitrary int64 fields for the reverse direction",
 				"object round trip: all five fields arbitrary int64",
-				"expansion: horizontal zoom finer than the vertical by 0..6 levels (2^d IDs), vertical finer than the horizontal by 0..2 (quick) / 0..3 (thorough) levels (4^d IDs), at bases 0,1,10,24,25,33; indices symbolic; region equality through a symbolic probe cell",
+				"expansion: horizontal zoom finer than the vertical by 0..6 levels (2^d IDs), vertical finer than the horizontal by 0..3 (quick) / 0..4 (thorough) levels (4^d IDs), at bases 0,1,10,24,25,33; indices symbolic; region equality through a symbolic probe cell",
 			},
 			Outside: []string{"lists longer than 3", "expansion across more than the stated zoom difference (output size 4^d / 2^d)"},
 			Assumptions: []string{"VerifC10StrModel is a self-check of the encoder's character-level string model (len, index, slice, range, ordering, Count/SplitN/FieldsFunc), not of the library", "token model of strings: an arbitrary string is a sequence of '/'-free fields with solver-chosen attributes (DESIGN §2.3)"},
@@ -25,12 +25,15 @@ func init() {
 			}
 			for _, b := range []int{0, 1, 10, 24, 25, 33} {
 				for dh := 0; dh <= 6; dh++ {
-					for dv := 0; dv <= 3; dv++ {
-						if (dh > 0 && dv > 0) || (tier == "quick" && dv > 2) || b+dh > 35 || b+dv > 35 {
+					for dv := 0; dv <= 4; dv++ {
+						if (dh > 0 && dv > 0) || (tier == "quick" && dv > 3) || b+dh > 35 || b+dv > 35 {
 							continue
 						}
 						in := mk("transform", "VerifC10Expand", cs("h", b+dh, "v", b+dv))
 						in.Unwind = 100
+						if dv == 4 {
+							in.Unwind = 300 // 256 IDs
+						}
 						is = append(is, in)
 					}
 				}
